@@ -205,12 +205,25 @@ func oracleC04(res *Result, c *Case) {
 	}
 	// (2) type names, marks, safe details kept and the message re-encoded exactly
 	res.OracleEvals["C04.reencode_exact"]++
+	// The same consequence inside a hidden chain (the payload of a barrier or of a secondary-error
+	// wrapper the intermediary knows): the visible tree does not show it, so the culprit is looked
+	// for in the received message: an unknown barrier / gRPC status layer below the node whose
+	// recomputed message differs.
+	hiddenConsequence := func(prefix string, a, b SX) string {
+		sig, node, hidden := firstDiffWireDeep(a, b, false)
+		if hidden && strings.HasSuffix(sig, "/message") {
+			if cul := unknownTextCulprit(node, c.Tags); cul != "" {
+				return "C04:text:" + cul + ":reencode"
+			}
+		}
+		return consequence(prefix + sig)
+	}
 	if field(r, "uenc").String() != field(r, "enc0").String() {
-		res.fail(c, "C04.reencode_exact", "re-encoding at the unknowing process differs from the received message", consequence("C04:reencode:"+firstDiffWire(field(r, "enc0"), field(r, "uenc"))))
+		res.fail(c, "C04.reencode_exact", "re-encoding at the unknowing process differs from the received message", hiddenConsequence("C04:reencode:", field(r, "enc0"), field(r, "uenc")))
 	}
 	res.OracleEvals["C04.reencode_exact_2nd"]++
 	if field(r, "u2enc").String() != field(r, "uenc").String() {
-		res.fail(c, "C04.reencode_exact_2nd", "second unknowing intermediary changes the message", consequence("C04:reencode2:"+firstDiffWire(field(r, "uenc"), field(r, "u2enc"))))
+		res.fail(c, "C04.reencode_exact_2nd", "second unknowing intermediary changes the message", hiddenConsequence("C04:reencode2:", field(r, "uenc"), field(r, "u2enc")))
 	}
 	// (3) a later knowing process reconstructs the same error as if it had received it directly
 	res.OracleEvals["C04.later_knowing"]++
@@ -283,4 +296,107 @@ func firstDiffWire(a, b SX) string {
 		return firstDiffWire(a.L[5], b.L[5])
 	}
 	return "?"
+}
+
+// wireChildren lists the wire nodes directly below a wire node: its cause(s) and, when its payload
+// is a hidden chain, the nodes of that payload.
+func wirePayload(x SX) []SX {
+	i := 3
+	if x.L[0].Sym == "W" {
+		i = 4
+	}
+	if i < len(x.L) && x.L[i].Kind == 'l' {
+		var out []SX
+		for _, p := range x.L[i].L {
+			if p.Kind == 'l' && len(p.L) > 0 && (p.L[0].Sym == "L" || p.L[0].Sym == "W") {
+				out = append(out, p)
+			}
+		}
+		return out
+	}
+	return nil
+}
+
+func wireCauses(x SX) []SX {
+	if x.L[0].Sym == "W" {
+		return []SX{x.L[5]}
+	}
+	return x.L[4].L
+}
+
+// firstDiffWireDeep is firstDiffWire descending into hidden chains carried as payloads: it names
+// the family and field of the innermost differing node, returns that node (in a) and whether it
+// lies inside a payload.
+func firstDiffWireDeep(a, b SX, hidden bool) (string, SX, bool) {
+	if a.Kind != 'l' || b.Kind != 'l' || len(a.L) == 0 || len(b.L) == 0 || a.L[0].Sym != b.L[0].Sym || (a.L[0].Sym != "L" && a.L[0].Sym != "W") {
+		return "shape", a, hidden
+	}
+	sig := firstDiffWireShallow(a, b)
+	switch {
+	case strings.HasSuffix(sig, "/payload"):
+		pa, pb := wirePayload(a), wirePayload(b)
+		if len(pa) == len(pb) && len(pa) > 0 {
+			for i := range pa {
+				if pa[i].String() != pb[i].String() {
+					return firstDiffWireDeep(pa[i], pb[i], true)
+				}
+			}
+		}
+		return sig, a, hidden
+	case sig == "":
+		ca, cb := wireCauses(a), wireCauses(b)
+		for i := range ca {
+			if i < len(cb) && ca[i].String() != cb[i].String() {
+				return firstDiffWireDeep(ca[i], cb[i], hidden)
+			}
+		}
+		return keyClass(a.L[2].L[2].Str) + "/causes", a, hidden
+	}
+	return sig, a, hidden
+}
+
+// firstDiffWireShallow: the first differing own field of two wire nodes of the same kind ("" = none).
+func firstDiffWireShallow(a, b SX) string {
+	fam := keyClass(a.L[2].L[2].Str)
+	names := []string{"", "/message", "/details", "/payload"}
+	if a.L[0].Sym == "W" {
+		names = []string{"", "/message", "/details", "/messagetype", "/payload"}
+	}
+	for i := 1; i < len(names); i++ {
+		if a.L[i].String() != b.L[i].String() {
+			return fam + names[i]
+		}
+	}
+	return ""
+}
+
+// unknownTextCulprit: a layer below x (causes and hidden chains included) of a type whose text is
+// known to differ at a process that does not know it (findings D7, D13) and that is unknown here.
+func unknownTextCulprit(x SX, unknown []string) string {
+	if x.Kind != 'l' || len(x.L) < 3 || (x.L[0].Sym != "L" && x.L[0].Sym != "W") {
+		return ""
+	}
+	var below []SX
+	below = append(below, wireCauses(x)...)
+	below = append(below, wirePayload(x)...)
+	for _, y := range below {
+		if y.Kind != 'l' || len(y.L) < 3 {
+			continue
+		}
+		tn, fam := y.L[2].L[1].Str, y.L[2].L[2].Str
+		if i := strings.LastIndex(tn, "/"); i >= 0 {
+			tn = tn[i+1:]
+		}
+		if tn == "*status.Error" || tn == "*status.statusError" || tn == "*barriers.barrierErr" {
+			for _, u := range unknown {
+				if u == fam {
+					return tn
+				}
+			}
+		}
+		if c := unknownTextCulprit(y, unknown); c != "" {
+			return c
+		}
+	}
+	return ""
 }
